@@ -468,12 +468,21 @@ def r4(ctx):
     c10.r4(ctx)
 
 
+def r5(ctx):
+    """Tags that haplotagphase votes with are the ones the last haplotag run decided: an alignment that gets no haplotype in a
+    run does not keep HP / PS of an earlier run (C10.R3: HP, PS, PC are defined on every path to the write)."""
+    from rules import c10
+
+    c10.r3(ctx)
+
+
 RULES = [
     ("C17.R1", "offset ledger PS/HP from VCF through tags back to VCF", r1),
     ("C17.R2", "haplotype order: xor key, winner to super-read 0, tuple order", r2),
     ("C17.R3", "already phased calls are carried, not re-derived", r3),
     ("C17.R4", "tags come from best agreement within the linked-read cutoff (C10.R4)", r4),
+    ("C17.R5", "no stale HP/PS tags survive a haplotag run (C10.R3)", r5),
 ]
 # instance floors: about 60% of the instances confirmed by hand on the reference tree -- a rule that suddenly matches far fewer
 # sites fails the run (exit 2); a clean-up that merges two sites into one does not
-FLOORS = {"C17.R1": 6, "C17.R2": 3, "C17.R3": 2, "C17.R4": 9}
+FLOORS = {"C17.R1": 6, "C17.R2": 3, "C17.R3": 2, "C17.R4": 9, "C17.R5": 3}
